@@ -93,6 +93,7 @@ class Executor:
     self.callstack = []
     self.dropped = []        # what the front end dropped (docstrings, verbose blocks): reported
     self.used_contracts = set()
+    self.sidecars_used = set()       # (target, ordinal) of the sidecar loop invariants that bound to a loop of the current tree
     self.inlined = set()
     self.externals_used = set()
     self.loop_hook = None    # set by the contract machinery
